@@ -15,6 +15,13 @@
 //!    from these bodies, Proofs/MpcCompileGadgets.v);
 //!  * `T:compile-rejected` — programs the compiler rejects (operations it does not compile, or
 //!    an is_input_private vector that is too short): same Err / Panic.
+//!  * `T:context-literal` / `T:context-rejected` — the context-level wrapper (Model/MpcCompileCtx.v:
+//!    compile_to_mpc with compile_to_mpc_context, share_all_inputs / share_input / share_node,
+//!    generate_prf_key_triple, the Call node, reveal_output): for programs x input status vectors over
+//!    {Party 0,1,2, Public, Shared} x all 16 ordered output lists, BOTH graphs of the context the
+//!    guarded hook `mpc_compiler::verif_compile_to_mpc` returns (computation graph 0, main graph 1) are
+//!    exported and compared node for node with the model; invalid party ids, Public/Shared output
+//!    statuses, too short status vectors and uncompilable operations must be rejected the same way.
 use crate::coqfmt::*;
 use crate::export::*;
 use crate::out::Out;
@@ -22,6 +29,7 @@ use crate::progen::*;
 use crate::rng::Rng;
 use ciphercore_base::data_types::*;
 use ciphercore_base::graphs::*;
+use ciphercore_base::mpc::mpc_compiler::{verif_compile_to_mpc, IOStatus};
 use ciphercore_base::mpc::verif_hooks::{compile_graph_to_mpc, private_and_reshared};
 use serde_json::json;
 
@@ -240,6 +248,209 @@ fn run_flags(p: &Prog, stream: &str, exhaustive: bool, rng: &mut Rng, seen: &mut
     }
 }
 
+// ---------------------------------------------------------------------------------------------
+// context level: compile_to_mpc (Model/MpcCompileCtx.v)
+// ---------------------------------------------------------------------------------------------
+
+/// the case files of C01 import the modules of c01::HEADER; the context-level cases also need
+/// Model.MpcCompileCtx (the runner takes the last `header` note)
+fn ctx_header() -> String {
+    format!("{}\nFrom CC Require Import Model.MpcCompileCtx.", crate::c01::HEADER)
+}
+
+fn status_coq(s: &IOStatus) -> String {
+    match s {
+        IOStatus::Public => "IOPublic".into(),
+        IOStatus::Shared => "IOShared".into(),
+        IOStatus::Party(p) => format!("(IOParty {})", p),
+    }
+}
+fn status_tag(s: &IOStatus) -> String {
+    match s {
+        IOStatus::Public => "Pub".into(),
+        IOStatus::Shared => "Sh".into(),
+        IOStatus::Party(p) => format!("P{}", p),
+    }
+}
+
+/// mpcgen::output_subsets: the 8 subsets in increasing order, then the 8 other orderings
+fn ctx_output_lists() -> Vec<Vec<IOStatus>> {
+    crate::mpcgen::output_subsets()
+}
+
+/// every status vector over {Party 0,1,2, Public, Shared} of length n
+fn all_status_vectors(n: usize) -> Vec<Vec<IOStatus>> {
+    crate::mpcgen::owner_vectors(n)
+}
+fn random_statuses(n: usize, rng: &mut Rng) -> Vec<IOStatus> {
+    (0..n).map(|_| match rng.below(5) { 0 => IOStatus::Party(0), 1 => IOStatus::Party(1), 2 => IOStatus::Party(2), 3 => IOStatus::Public, _ => IOStatus::Shared }).collect()
+}
+
+/// inputs of tuple / vector / named-tuple type, so that share_node and reveal_output recurse over
+/// the type (recursively_generate_node_shares with a node, recursively_sum_shares)
+fn structured_program(rng: &mut Rng, variant: usize) -> Prog {
+    let ctx = create_context().unwrap();
+    let g = ctx.create_graph().unwrap();
+    let st = *rng.pick(&[UINT8, INT32, UINT64, BIT]);
+    let ta = array_type(vec![2], st);
+    let tv = vector_type(2, ta.clone());
+    let tt = tuple_type(vec![ta.clone(), tv.clone()]);
+    let tn = named_tuple_type(vec![("a".to_string(), ta.clone()), ("b".to_string(), scalar_type(st))]);
+    let (t0, t1) = match variant % 4 { 0 => (tt.clone(), tn.clone()), 1 => (tv.clone(), ta.clone()), 2 => (tn.clone(), tt.clone()), _ => (tt.clone(), ta.clone()) };
+    let i0 = g.input(t0.clone()).unwrap();
+    let i1 = g.input(t1.clone()).unwrap();
+    let o = match variant % 4 {
+        0 => { let x = i0.tuple_get(0).unwrap().add(i1.named_tuple_get("a".to_string()).unwrap()).unwrap(); g.create_tuple(vec![x, i0.clone(), i1.clone()]).unwrap() }
+        1 => { let idx = g.constant(scalar_type(UINT64), ciphercore_base::data_values::Value::from_scalar(1u64, UINT64).unwrap()).unwrap(); let e = i0.vector_get(idx).unwrap(); let s = e.add(i1.clone()).unwrap(); g.create_vector(ta.clone(), vec![s, i1.clone()]).unwrap() }
+        2 => g.create_named_tuple(vec![("p".to_string(), i0.clone()), ("q".to_string(), i1.tuple_get(1).unwrap())]).unwrap(),
+        _ => i0.clone(),
+    };
+    g.set_output_node(o).unwrap();
+    g.finalize().unwrap();
+    ctx.set_main_graph(g.clone()).unwrap();
+    ctx.finalize().unwrap();
+    Prog { ctx, g, input_types: vec![t0, t1], attempts: vec![] }
+}
+
+/// one context-level case: the real compile_to_mpc on (context, statuses, outputs) against the model
+fn context_case(p: &Prog, statuses: &[IOStatus], outputs: &[IOStatus], stream: &str, out: &mut Out) {
+    if !mirrored(&p.g) { out.stat("ctx:skipped-not-mirrored"); return; }
+    let src = nodes_coq(&p.g);
+    let oid = p.g.get_output_node().unwrap().get_id();
+    let (c1, s1, o1) = (p.ctx.clone(), statuses.to_vec(), outputs.to_vec());
+    let r = observe(move || verif_compile_to_mpc(c1, vec![s1], vec![o1]));
+    out.stat(&format!("ctx:{}:compile:{}", stream, r.tag()));
+    for s in statuses { out.stat(&format!("ctx:input-status:{}", status_tag(s))); }
+    out.stat(&format!("ctx:outputs:{}", if outputs.is_empty() { "[]".to_string() } else { outputs.iter().map(status_tag).collect::<Vec<_>>().join(",") }));
+    let private = statuses.iter().any(|s| *s != IOStatus::Public);
+    let rhs = match &r {
+        Outcome::Ok(mc) => {
+            // mc owns the compiled context: it stays alive (borrowed) while both graphs are exported
+            let graphs = mc.context.get_graphs();
+            let main_id = mc.context.get_main_graph().map(|g| g.get_id()).unwrap_or(u64::MAX);
+            if graphs.len() != 2 || main_id != 1 {
+                out.violation("ctx-shape", json!({"stream": stream, "graphs": graphs.len(), "main": main_id}), "compile_to_mpc of a one-graph context must return the computation graph 0 and the main graph 1".into());
+                return;
+            }
+            out.oracle_ok();
+            let (cg, mg) = (&graphs[0], &graphs[1]);
+            let n = mg.get_nodes().len();
+            out.stat_n("ctx:main-nodes", n as u64);
+            out.stat(&format!("ctx:main-size:{}", match n { 0..=19 => "<20", 20..=39 => "20-39", 40..=79 => "40-79", _ => ">=80" }));
+            let sends = mg.get_nodes().iter().filter(|n| n.get_annotations().unwrap_or_default().iter().any(|a| matches!(a, NodeAnnotation::Send(_, _)))).count();
+            out.stat(&format!("ctx:main-sends:{}", match sends { 0..=3 => "3", 4..=6 => "4-6", 7..=9 => "7-9", _ => ">=10" }));
+            let out_private = cg.get_output_node().unwrap().get_annotations().unwrap_or_default().contains(&NodeAnnotation::Private);
+            out.stat(&format!("ctx:result:{}:{}", if out_private { "private" } else { "public" }, match outputs.len() { 0 => "kept-shared", 1 => "one-party", _ => "forwarded" }));
+            let mul = cg.get_nodes().iter().any(|n| n.get_annotations().unwrap_or_default().contains(&NodeAnnotation::PRFMultiplication));
+            out.stat(&format!("ctx:prf-mul-keys:{}", mul));
+            format!("(true, Ok (({}, {}), ({}, {})))", nodes_coq(cg), cg.get_output_node().unwrap().get_id(), nodes_coq(mg), mg.get_output_node().unwrap().get_id())
+        }
+        Outcome::Err => "(true, Err)".to_string(),
+        Outcome::Panic => "(true, Panic)".to_string(),
+    };
+    let ops_desc: Vec<String> = p.g.get_nodes().iter().map(|n| op_name(&n.get_operation())).collect();
+    let desc = json!({"stream": stream, "ops": ops_desc, "input_types": p.input_types.iter().map(|t| format!("{}", t)).collect::<Vec<_>>(),
+        "input_statuses": statuses.iter().map(status_tag).collect::<Vec<_>>(), "output_parties": outputs.iter().map(status_tag).collect::<Vec<_>>(), "output": oid});
+    let lhs = format!("let src := {} in (mpc_mirrored src, compile_to_mpc src {} {} {})", src, oid, list(statuses, status_coq), list(outputs, status_coq));
+    let kind = if matches!(r, Outcome::Ok(_)) { "T:context-literal" } else { "T:context-rejected" };
+    out.case(kind, lhs, rhs, desc, private);
+}
+
+/// program x status vectors x all 16 ordered output lists
+fn context_cases(p: &Prog, stream: &str, n_vectors: usize, exhaustive: bool, rng: &mut Rng, out: &mut Out) {
+    let n = p.input_types.len();
+    let vectors: Vec<Vec<IOStatus>> = if exhaustive && n <= 2 { all_status_vectors(n) } else {
+        let mut v: Vec<Vec<IOStatus>> = vec![];
+        for k in 0..n_vectors {
+            // the first vector: owners Party k, k+1, ... ; then random ones
+            v.push(if k == 0 { (0..n).map(|j| IOStatus::Party((j % 3) as u64)).collect() } else { random_statuses(n, rng) });
+        }
+        v
+    };
+    for sv in &vectors {
+        for ol in ctx_output_lists() { context_case(p, sv, &ol, stream, out); }
+    }
+    // all inputs public: the result is public; kept shared (party 0 shares the Call result), one party, forwarded
+    if !exhaustive || n > 2 {
+        let sv = vec![IOStatus::Public; n];
+        for ol in [vec![], vec![IOStatus::Party(1)], vec![IOStatus::Party(2), IOStatus::Party(0)]] { context_case(p, &sv, &ol, stream, out); }
+    }
+}
+
+fn run_context(tier: &str, rng: &mut Rng, out: &mut Out) {
+    out.note("header", json!(ctx_header()));
+    let (n_thm, n_gen, n_mul, n_struct, n_vec) = match tier { "thorough" => (24, 24, 8, 8, 6), "search" => (2, 2, 1, 1, 2), _ => (3, 3, 1, 2, 2) };
+    let exhaustive = tier == "thorough";
+    let int_sts = [UINT8, INT16, UINT32, INT32, UINT64, INT64, UINT128];
+    for i in 0..(n_thm + n_gen) {
+        let thm = i < n_thm;
+        let st = if i % 7 == 6 { BIT } else { *rng.pick(&int_sts) };
+        let ops: Vec<&'static str> = if thm { DEEP_THEOREM_OPS.to_vec() } else { DEEP_OPS.to_vec() };
+        let (ni, no) = (1 + rng.below(3) as usize, 1 + rng.below(7) as usize);
+        let cfg = GenCfg { n_inputs: ni, n_ops: no, scalar_types: vec![st], ops, small: true };
+        let p = if !thm && i % 2 == 0 { gen_program(rng, &cfg) } else { gen_program_single_output(rng, &cfg) };
+        context_cases(&p, if thm { "theorem-fragment" } else { "fragment" }, n_vec, exhaustive, rng, out);
+    }
+    for i in 0..n_mul {
+        let st = *rng.pick(&int_sts);
+        let cfg = GenCfg { n_inputs: 2 + rng.below(2) as usize, n_ops: 3 + rng.below(5) as usize, scalar_types: vec![st], ops: DEEP_MUL_OPS.to_vec(), small: true };
+        let p = if i % 2 == 0 { gen_program_single_output(rng, &cfg) } else { gen_program(rng, &cfg) };
+        context_cases(&p, "mul-heavy", n_vec, false, rng, out);
+    }
+    for i in 0..n_struct {
+        let p = structured_program(rng, i);
+        context_cases(&p, "structured-types", n_vec + 1, exhaustive, rng, out);
+    }
+    // a*b+a with owners Party 0 / Party 1 (the non-vacuity example of Props/C01.v)
+    {
+        let p = example_program();
+        for ol in ctx_output_lists() { context_case(&p, &[IOStatus::Party(0), IOStatus::Party(1)], &ol, "example", out); }
+    }
+    // rejected: invalid party ids, non-party output statuses, duplicates are accepted, short status vectors,
+    // operations the compiler does not compile
+    let p = ring_program(rng, UINT32);
+    let n = p.input_types.len();
+    let ok_in: Vec<IOStatus> = (0..n).map(|j| IOStatus::Party((j % 3) as u64)).collect();
+    let mut bad_in = ok_in.clone();
+    bad_in[n - 1] = IOStatus::Party(3 + rng.below(5));
+    for (sv, ol) in [
+        (bad_in.clone(), vec![IOStatus::Party(0)]),
+        (ok_in.clone(), vec![IOStatus::Party(3)]),
+        (ok_in.clone(), vec![IOStatus::Party(1), IOStatus::Party(7)]),
+        (ok_in.clone(), vec![IOStatus::Public]),
+        (ok_in.clone(), vec![IOStatus::Party(2), IOStatus::Shared]),
+        (ok_in.clone(), vec![IOStatus::Shared]),
+        (ok_in[..n - 1].to_vec(), vec![IOStatus::Party(0)]),
+        (vec![], vec![]),
+        // accepted: duplicated output parties, more statuses than inputs
+        (ok_in.clone(), vec![IOStatus::Party(1), IOStatus::Party(1)]),
+        (ok_in.clone(), vec![IOStatus::Party(2), IOStatus::Party(0), IOStatus::Party(2), IOStatus::Party(0)]),
+        ([ok_in.clone(), vec![IOStatus::Shared, IOStatus::Party(9)]].concat(), vec![IOStatus::Party(0)]),
+        ([ok_in.clone(), vec![IOStatus::Shared]].concat(), vec![]),
+    ] {
+        context_case(&p, &sv, &ol, "party-checks", out);
+    }
+    for i in 0..(if tier == "thorough" { 6 } else { 2 }) {
+        let p = rejected_program(rng, i);
+        context_case(&p, &[IOStatus::Party(1), if i % 2 == 0 { IOStatus::Public } else { IOStatus::Shared }], &[IOStatus::Party(0)], "rejected-op", out);
+    }
+}
+
+/// a*b+a over one array type
+fn example_program() -> Prog {
+    let ctx = create_context().unwrap();
+    let g = ctx.create_graph().unwrap();
+    let t = array_type(vec![2], UINT32);
+    let a = g.input(t.clone()).unwrap();
+    let b = g.input(t.clone()).unwrap();
+    let o = a.multiply(b).unwrap().add(a).unwrap();
+    g.set_output_node(o).unwrap();
+    g.finalize().unwrap();
+    ctx.set_main_graph(g.clone()).unwrap();
+    ctx.finalize().unwrap();
+    Prog { ctx, g, input_types: vec![t.clone(), t], attempts: vec![] }
+}
+
 pub fn run(tier: &str, rng: &mut Rng, out: &mut Out) {
     let (n_ring, n_mix, n_thm, n_gen, n_rej) = match tier { "thorough" => (80, 90, 120, 300, 12), "search" => (10, 18, 10, 20, 6), _ => (10, 12, 12, 30, 6) };
     let n_mul = match tier { "thorough" => 150, "search" => 10, _ => 14 };
@@ -289,4 +500,5 @@ pub fn run(tier: &str, rng: &mut Rng, out: &mut Out) {
         let f: Vec<bool> = (0..n - 1).map(|j| (i + j) % 2 == 0).collect();
         deep_cases(&p, &f, "short-flags", &mut seen, out);
     }
+    run_context(tier, rng, out);
 }
